@@ -894,13 +894,13 @@ func printable(s string) bool {
 }
 
 // riskyWidth: a control string with a v parameter (possibly inside a ~? argument) together with an integer
-// argument between 10^5 and 2^64 could, after a cursor move, take that integer as a width or a repeat
+// argument between 2000 and 2^64 could, after a cursor move, take that integer as a width or a repeat
 // count and allocate gigabytes; such combinations are not run (larger integers overflow int and are refused
 // by slip at once).
 func riskyWidth(p piece) bool {
 	hasV := strings.Contains(p.ctl, "v")
 	var mid func(v val) bool
-	lo, hi := big.NewInt(100000), new(big.Int).Lsh(big.NewInt(1), 64)
+	lo, hi := big.NewInt(2000), new(big.Int).Lsh(big.NewInt(1), 64)
 	mid = func(v val) bool {
 		switch v.k {
 		case kInt:
@@ -984,6 +984,12 @@ func Run(ctx *common.Ctx) {
 		distinct[src] = true
 		o := evalString(src)
 		ctx.Meta.Evaluations++
+		if len(o.text) > 3000 {
+			// a width taken from an argument: the text is right or wrong in its first few thousand characters already,
+			// and a list literal of that length overflows the stack of coqc
+			ctx.Hist("skipped:long-output")
+			return
+		}
 		if o.err == "timeout" {
 			// handed to the model as an observation of its own kind: the known cursor defect (~:* before the first
 			// argument, then ~@{ ) makes the Go loop spin, and the model's loop does the same
